@@ -20,7 +20,7 @@ RULE = ("Case = one tagged_data / feature_data call.  Reference arrays of rank 1
         "before the first by <1 or >=1 step, on the first, on the last, beyond the last}; extents by class {missing, zero, "
         "ending on a sample, between samples, shorter than a step, beyond the stored data}; positions shorter than the rank; "
         "Tag and MultiTag (1-D and 2-D position arrays); both stop rules; tag unit / dimension unit over 21x21 SI prefixes of "
-        "s, V, Hz, m (plus unit-less, unit on a set dimension, unit-less dimension, unconvertible pairs); features tagged / "
+        "s, V, Hz, m (plus unit-less, unit on a set dimension, unit-less dimension, different base unit, compound tag unit); features tagged / "
         "indexed / untagged.  Distinct by (descriptor kinds, position classes, extent classes, stop rule, prefix pair class, "
         "Tag|MultiTag, call, expected outcome class); trivial = none.")
 ASSUMPTIONS = ["region boundaries inside the library's documented float tolerance band of a sample are not generated (A3): every boundary is "
@@ -261,6 +261,13 @@ class Runner:
                 scales.append(F(1))
                 continue
             dp, base = d.unit
+            if mode == "bad" and rng.random() < 0.3:
+                # a compound unit whose first factor would be convertible: the position cannot be converted into the dimension's unit
+                units.append(rng.choice(list(PREFIXES)) + base + rng.choice(["/", "*"]) + rng.choice(["s", "ms", "kHz", "m^2"]))
+                bad = True
+                cls.add("compound_tag_unit")
+                scales.append(F(1))
+                continue
             if mode == "bad" and rng.random() < 0.6:
                 other = rng.choice([b for b in BASES if b != base])
                 units.append(rng.choice(["", "m", "k"]) + other)
